@@ -9,6 +9,7 @@ import (
 	"sort"
 	"strings"
 	"sync/atomic"
+	"verif/checks/c14"
 
 	"github.com/google/jsonschema-go/jsonschema"
 
@@ -66,7 +67,7 @@ func Run(r *ev.Run) {
 	})
 	r.Rule("G-uri: (a) single-document worlds: root (BaseURI empty/absolute, 5 root $id forms) embedding resource e (8 $id forms) embedding f (4 forms), anchors and pointer targets each with a unique const marker, the probe $ref placed in the root resource or inside e, x every string of a 65-string ref alphabet, Loader nil / present; " +
 		"(b) multi-document universes in 15 shapes (chains, diamonds, cycles, self-reference, retrieval-vs-canonical aliases, back-references to a root-embedded resource, references from a later document to a resource embedded in an earlier loaded one) x every fragment form per edge (valid forms on all edges, plus each single edge dangling: '#nope', '#/$defs/nope', into a document that is being loaded or is already cached) x $id mode per document x relative/absolute spelling x EVERY subset of failing loader URIs. " +
-		"Per universe: Resolve errs iff R1 says some reference designates nothing or a needed document fails; verdict per marker instance equals R1; loader call log has no URI twice, no request for an already known URI and no request for the canonical $id of a document already loaded under its retrieval URI. states = distinct (universe, fault subset) configurations, transitions = loader answers + marker validations executed on the implementation. Non-trivial = reference resolved and marker verdicts compared, or error expected and observed")
+		"Per universe: Resolve errs iff R1 says some reference designates nothing or a needed document fails; verdict per marker instance equals R1; loader call log has no URI twice, no request for an already known URI and no request for the canonical $id of a document already loaded under its retrieval URI. Fault sequences across calls: every sequence of <=3 Resolve calls of six roots, each optionally with a transient Loader fault, through ONE caching Loader must reproduce the fresh-Loader results. states = distinct (universe, fault subset) configurations, transitions = loader answers + marker validations executed on the implementation. Non-trivial = reference resolved and marker verdicts compared, or error expected and observed")
 	r.Assume("R1 + R3 (RFC 3986 §5.2 written from the RFC) designate the target; net/url is not used by the oracle",
 		"the universe loader serves retrieval URIs and root $ids; references by canonical $id to a document not yet loaded are served by the loader")
 	if n, bad, err := ref.CheckSuite("/repo"); err != nil || len(bad) > 0 {
@@ -85,6 +86,10 @@ func Run(r *ev.Run) {
 			r.Sample(map[string]any{"kind": c.u.Kind, "desc": c.desc, "root": c.u.Root, "base": c.u.Base, "loader_documents": c.u.Docs, "failing_uris": c.faults, "loader_nil": c.nilLoad})
 		}
 	})
+	// fault sequences across calls: a Resolve that fails half-way (transient Loader fault), then
+	// further Resolve calls through the same caching Loader must resolve every reference to the
+	// same target as with a fresh Loader
+	transitions.Add(int64(c14.LoaderHistories(r, thorough, "C03 ")))
 	r.Set("states", states.Load())
 	r.Set("transitions", transitions.Load())
 	r.Set("traces_validated_against_impl", states.Load())
